@@ -117,16 +117,18 @@ OneCases == UNION {{CI("one", n, n, k, 0, 0, 0, 0, 0, 0) : k \in All2(n)} : n \i
 
 UnaryCases ==
     UNION {{CI("unary", n, n, k, 0, 0, 0, 0, ui, 0) : k \in All2(n), ui \in All1(n)} : n \in 1..2}
-    \cup {CI("unary", 3, 3, k, 0, 0, 0, 0, ui, 0) : k \in Assoc3, ui \in All1(3)}
+    \cup {CI("unary", 3, 3, k, 0, 0, 0, 0, ui, 0) : k \in (IF THOROUGH THEN Assoc3 ELSE Mon3), ui \in All1(3)}
 
 TwoCases ==
     UNION {{CI("two", n, n, k, j, 0, 0, 0, 0, 0) : k \in All2(n), j \in All2(n)} : n \in 1..2}
-    \cup {CI("two", 3, 3, k, j, 0, 0, 0, 0, 0) : k \in (IF THOROUGH THEN Assoc3 ELSE CMon3), j \in Assoc3}
+    \cup {CI("two", 3, 3, k, j, 0, 0, 0, 0, 0) : k \in (IF THOROUGH THEN Assoc3 ELSE CMon3), j \in (IF THOROUGH THEN Assoc3 ELSE Mon3)}
 
 RingCases ==
     UNION {{CI("ring", n, n, k, j, 0, 0, 0, ui, wi) :
-                k \in All2(n), j \in All2(n), ui \in All1(n), wi \in All1(n)} : n \in 1..2}
-    \cup {CI("ring", 3, 3, t[1], j, 0, 0, 0, t[3], wi) : t \in Group3, j \in (IF THOROUGH THEN Assoc3 ELSE Mon3), wi \in All1(3)}
+                k \in All2(n), j \in All2(n), ui \in All1(n),
+                wi \in (IF THOROUGH THEN All1(n) ELSE {0, NTab1(n, n) - 1})} : n \in 1..2}
+    \cup {CI("ring", 3, 3, t[1], j, 0, 0, 0, t[3], wi) : t \in Group3, j \in (IF THOROUGH THEN Assoc3 ELSE Mon3),
+            wi \in (IF THOROUGH THEN All1(3) ELSE {w \in All1(3) : w % 3 = 0})}
 
 LinCases ==
     UNION {{CI("lin", n, n, k, j, 0, 0, qi, 0, 0) :
